@@ -125,3 +125,55 @@ Definition sb_step (g : sgeom) (st : sbs) (ans : list bool) (o : sop) : sbs * li
   | SStore s => sb_store g st ans s
   | SDeref s => let '(st', e) := sb_deref g st s in (st', ans, e, None)
   end.
+
+(* ---- StringBuffer (Memory/StringBuffer.hpp): the MessagePack reader's way of storing strings, keys, raw values:
+   reserve(n) provides a node of capacity >= n (a too small one is destroyed and an exact one created), the bytes are read
+   into it, save() finds the string in the pool (the node is then kept for the next reserve) or moves the node, shrunk to the
+   string when larger, into the pool ---- *)
+Record bfs := { bf_pool : list snode; bf_node : option N }.       (* the buffer's node: its capacity (length field) *)
+Definition bf_init : bfs := {| bf_pool := []; bf_node := None |}.
+
+Definition bf_reserve (g : sgeom) (st : bfs) (ans : list bool) (n : N) : bfs * list bool * list aev * bool :=
+  let '(node1, e1) := match bf_node st with
+                      | Some cap => if cap <? n then (None, [EvFree (size_for g cap)]) else (Some cap, [])
+                      | None => (None, [])
+                      end in
+  match node1 with
+  | Some cap => ({| bf_pool := bf_pool st; bf_node := Some cap |}, ans, e1, true)
+  | None =>
+      if s_max g <? n then ({| bf_pool := bf_pool st; bf_node := None |}, ans, e1, false)        (* create(): length > maxLength *)
+      else let '(a, ans') := take ans in
+           if a then ({| bf_pool := bf_pool st; bf_node := Some n |}, ans', e1 ++ [EvAlloc (size_for g n) true], true)
+           else ({| bf_pool := bf_pool st; bf_node := None |}, ans', e1 ++ [EvAlloc (size_for g n) false], false)
+  end.
+
+Definition bf_save (g : sgeom) (st : bfs) (ans : list bool) (s : bytes) : bfs * list bool * list aev * option snode :=
+  match bf_node st with
+  | None => (st, ans, [], None)
+  | Some cap =>
+      match pool_find s (bf_pool st) with
+      | Some k => let p' := pool_addref k (bf_pool st) in
+                  ({| bf_pool := p'; bf_node := Some cap |}, ans, [], nth_error p' k)
+      | None =>
+          let node := {| n_len := blen s; n_data := s; n_refs := 1 |} in
+          if cap =? blen s then ({| bf_pool := node :: bf_pool st; bf_node := None |}, ans, [], Some node)
+          else let '(_, ans') := take ans in
+               ({| bf_pool := node :: bf_pool st; bf_node := None |}, ans',
+                [EvRealloc (size_for g cap) (size_for g (blen s)) true], Some node)
+      end
+  end.
+
+(* one string of the input: reserve(|s|), read the bytes, save() — None = NoMemory *)
+Definition bf_store (g : sgeom) (st : bfs) (ans : list bool) (s : bytes) : bfs * list bool * list aev * option snode :=
+  let '(st1, ans1, e1, ok) := bf_reserve g st ans (blen s) in
+  if ok then let '(st2, ans2, e2, r) := bf_save g st1 ans1 s in (st2, ans2, e1 ++ e2, r)
+  else (st1, ans1, e1, None).
+
+Definition bf_deref (g : sgeom) (st : bfs) (s : bytes) : bfs * list aev :=
+  let '(p', e) := pool_deref g s (bf_pool st) in ({| bf_pool := p'; bf_node := bf_node st |}, e).
+
+Definition bf_step (g : sgeom) (st : bfs) (ans : list bool) (o : sop) : bfs * list bool * list aev * option snode :=
+  match o with
+  | SStore s => bf_store g st ans s
+  | SDeref s => let '(st', e) := bf_deref g st s in (st', ans, e, None)
+  end.
